@@ -258,6 +258,14 @@ fn command_go(
                 depth,
             );
 
+            // Be ready for the next command before the GUI can react to `bestmove`:
+            // release the game and clear the flag first, announce the move last
+            *current_game = None;
+            drop(data);
+            search_is_running.store(false, Relaxed);
+            #[cfg(daniel729_chess_verif)]
+            crate::verif_hooks::event("FLAG_CLEARED");
+
             if let Some(best_move) = best_move {
                 println!("bestmove {}", best_move.uci_notation());
             } else {
@@ -265,11 +273,6 @@ fn command_go(
             }
             #[cfg(daniel729_chess_verif)]
             crate::verif_hooks::sched("AFTER_BESTMOVE");
-
-            search_is_running.store(false, Relaxed);
-            #[cfg(daniel729_chess_verif)]
-            crate::verif_hooks::event("FLAG_CLEARED");
-            *current_game = None;
         }
     });
 
